@@ -52,7 +52,7 @@ def strategy(tier):
 
 
 def budget(tier):
-    return 120 if tier == "quick" else 2500
+    return 160 if tier == "quick" else 3000
 
 
 def enumerate_cases(tier):
@@ -65,6 +65,13 @@ def enumerate_cases(tier):
         rec = pgen.make_table([1] * n, groups, ndata=2, subline=sub, page_by_levels=1 if groups else 0, header=hdr,
                               footnote=fn, source=src, nrow=nrow)
         rec["strategy"] = strat
+        yield rec
+    # null page_by values: a run of rows without a group value between named groups (and at the start), pages filled exactly
+    for nrow, hdr, lead in itertools.product((5, 6, 7, 8, 9), ("explicit", "none"), (False, True)):
+        runs = ([(2, None)] if lead else []) + [(4, "@G0:v0"), (2, None), (5, "@G0:v1"), (1, None), (6, "@G0:v2")]
+        vals = [v for k, v in runs for _ in range(k)]
+        rec = pgen.make_table([1] * len(vals), [vals], ndata=2, page_by_levels=1, header=hdr, nrow=nrow)
+        rec["strategy"] = "page_by"
         yield rec
     # the same long text in a wide and in a narrow column of one row (1 line there, several here), unequal widths
     from .. import metrics
